@@ -94,7 +94,7 @@ UNIT = {
      "ensures": ["final(self).state.inv()", "final(self).capacity == old(self).capacity", "final(self).state.p == old(self).state.p",
                  "forall|j: K| final(self).state.tracked(j) == old(self).state.tracked(j)",
                  "forall|j: K| j != *key && old(self).state.tracked(j) ==> final(self).state.cost(j) == old(self).state.cost(j)"],
-     "splices": [{"before": "if state.t1.remove(key).is_some() {", "nth": 0, "of": 1, "insert": [
+     "splices": [{"at_start": True, "insert": [
        "proof {",
        "  let k = *key; let o = old(self).state.t1.view(); let q = old(self).state.t2.view();",
        "  lemma_without_keys(o, k); lemma_without_cost(o, k); lemma_without_nodup(o, k); lemma_without_total(o, k); lemma_total_nonneg(without(o, k));",
@@ -117,7 +117,7 @@ UNIT = {
      "requires": ["old(self).state.inv()"],
      "ensures": ["final(self).state.inv()", "!final(self).state.tracked(*key)",
                  "forall|j: K| j != *key ==> final(self).state.tracked(j) == old(self).state.tracked(j) && final(self).state.cost(j) == old(self).state.cost(j)"],
-     "splices": [{"before": "if state.t1.remove(key).is_some() {", "insert": [
+     "splices": [{"at_start": True, "insert": [
        "proof {",
        "  let k = *key; let st = old(self).state;",
        "  lemma_without_keys(st.t1.view(), k); lemma_without_cost(st.t1.view(), k); lemma_without_nodup(st.t1.view(), k); lemma_without_total(st.t1.view(), k);",
@@ -173,7 +173,7 @@ UNIT = {
                  "r matches AdmissionDecision::AdmitAndEvict(v) ==> v[0] != *key && old(self).state.tracked(v[0]) && !final(self).state.tracked(v[0])",
                  "r matches AdmissionDecision::AdmitAndEvict(v) ==> (forall|j: K| j != *key && j != v[0] ==> final(self).state.tracked(j) == old(self).state.tracked(j) && final(self).state.cost(j) == old(self).state.cost(j))"],
      "splices": [
-       {"before": "if state.t1.remove(key).is_some() {", "insert": [
+       {"at_start": True, "insert": [
          "proof {",
          "  let k = *key; let st = old(self).state;",
          "  lemma_without_keys(st.t1.view(), k); lemma_without_cost(st.t1.view(), k); lemma_without_nodup(st.t1.view(), k); lemma_without_total(st.t1.view(), k); lemma_total_nonneg(without(st.t1.view(), k));",
